@@ -18,7 +18,7 @@ CHECKS = {
     "C01": dict(
         engine="E1+E2+E3",
         category="exploration",
-        text="Generated histories of operations that hand memory to the kernel with drops at every life-cycle point, cancel-race outcomes and EINTR/ECANCELED re-issues; the simulated kernel decodes every user region of each consumed SQE and holds it in a tracking global allocator until the final CQE: a free/realloc overlapping a held region, a region outside live heap/static memory, a moved block or changed source bytes is a violation. One case in five is a multi-completion case (multishot accept, zero-copy send/send_vectored, drops between the two completions, Ring dropped while a notification is outstanding): memory stays put until the kernel's last completion of the request. Operation kinds of the interpreter (29): plain/positional/vectored reads and writes, send/recv with flags, send_to/recv_from and their vectored forms (message header, iovec array, address storage), socket names and get/set socket options (socket commands), statx, connect/bind, path strings (create_dir, remove, rename), waitid and signalfd out-parameters.",
+        text="Generated histories of operations that hand memory to the kernel with drops at every life-cycle point, cancel-race outcomes and EINTR/ECANCELED re-issues; the simulated kernel decodes every user region of each consumed SQE and holds it in a tracking global allocator until the final CQE: a free/realloc overlapping a held region, a region outside live heap/static memory, a moved block or changed source bytes is a violation. One case in five is a multi-completion case (multishot accept, zero-copy send/send_vectored, drops between the two completions, Ring dropped while a notification is outstanding): memory stays put until the kernel's last completion of the request. Operation kinds of the interpreter (29): plain/positional/vectored reads and writes, send/recv with flags, send_to/recv_from and their vectored forms (message header, iovec array, address storage), socket names and get/set socket options (socket commands), statx, connect/bind, path strings (create_dir, remove, rename), waitid and signalfd out-parameters. Not decided here: that the type checker rejects borrowed (non-'static) buffers, which no execution can exhibit (DESIGN.md section 9); operations are also polled after the Ring's drop, and a completion that waits in the queue for an already freed state block is reported before Ring::poll follows it.",
         design_ref="5/C01",
         technique="model-based property testing against a simulated kernel + tracking allocator invariant monitor",
     ),
